@@ -148,9 +148,26 @@ func (p *Parser) Close() {
 	verifC10(p, "parser.closeSent")
 }
 
+// WaitClose waits until the parser has stopped (see Close). Sequences the
+// parser still emits in the meantime are discarded: the goroutine that
+// receives from Next may be the caller itself, or may be blocked or gone, and
+// the parser cannot stop while it is waiting for a receiver. Once the parser
+// has stopped the channel returned by Next is closed.
 func (p *Parser) WaitClose() {
-	<-p.closed
-	verifC10(p, "parser.closedTaken")
+	for {
+		select {
+		case <-p.closed:
+			verifC10(p, "parser.closedTaken")
+			return
+		case _, ok := <-p.sequences:
+			if !ok {
+				<-p.closed
+				verifC10(p, "parser.closedTaken")
+				return
+			}
+			verifC10(p, "parser.drained")
+		}
+	}
 }
 
 func (p *Parser) readRune() rune {
